@@ -57,6 +57,10 @@ def compare(line, robs, mobs):
     """None if the two observations agree, else a short reason."""
     if robs == 'inexact':
         return None
+    if robs == 'nomap' or mobs.startswith('bad-op:no-such-map'):
+        if robs == 'nomap' and mobs.startswith('bad-op:no-such-map'):
+            return None
+        return 'map missing on one side only: real=%s model=%s' % (robs[:40], mobs[:40])
     if mobs.startswith('bad-op'):
         return 'model rejected the line (%s)' % mobs
     if robs.startswith('err') or mobs.startswith('err'):
@@ -120,7 +124,7 @@ def fails(lines):
         d = check_histories([lines])
     except Exception:
         return None
-    if d and d[0].reason.startswith('model rejected'):
+    if d and (d[0].reason.startswith('model rejected') or d[0].reason.startswith('map missing')):
         return None        # a malformed candidate produced by shrinking, not a failure
     return d[0] if d else None
 
